@@ -10,6 +10,7 @@ import vlib
 
 PROP = 'C11'
 HDR_DMA = 'From Coq Require Import List NArith.\nImport ListNotations.\nFrom VCp Require Import Dma.\nOpen Scope N_scope.\n'
+HDR_CPR = 'From Coq Require Import List NArith.\nImport ListNotations.\nFrom VCp Require Import CpRelay.\nOpen Scope N_scope.\n'
 HDR_HIST = ('From Coq Require Import List NArith.\nImport ListNotations.\nFrom VDrv Require Import MemCopy FlushHist.\n'
             'Open Scope N_scope.\n')
 HDR_DRV = ('From Coq Require Import List NArith.\nImport ListNotations.\nFrom VMem Require Import StorageAccessor.\n'
@@ -140,6 +141,71 @@ def mon_dma(case):
     return None
 
 
+def mon_cpr(case):
+    """The command processor between driver, DMA engine and caches (protocol-respecting environment only)."""
+    ev = case['events']
+    if case.get('hostile'):
+        return None
+    if any(e.get('panic') for e in ev):
+        return 'the command processor panicked on protocol-respecting traffic'
+    nc = sum(case['ncache'])
+    reqs = {}          # id -> (kind, src, index of delivery)
+    order = []         # accepted requests in port order
+    for i, e in enumerate(ev):
+        if e['e'] == 'ddrv' and e.get('acc'):
+            reqs[e['req']['id']] = (e['req']['kind'], e['req']['src'], i)
+            order.append(e['req']['id'])
+    acks_at = []       # event indices of accepted cache acknowledgements
+    dma_ans = {}       # clone id -> index of the accepted answer
+    clone_of = {}      # clone id -> original
+    seen_clone, seen_rsp = set(), set()
+    for i, e in enumerate(ev):
+        if e['e'] == 'dcache' and e.get('acc') and not e.get('bad'):
+            acks_at.append(i)
+        elif e['e'] == 'ddma' and e.get('acc') and e.get('rspto') is not None:
+            dma_ans.setdefault(e['rspto'], i)
+        elif e['e'] == 'rcache' and e.get('cache') is not None:
+            if e['cache'] >= nc:
+                return 'flush request sent to something that is not one of the %d caches' % nc
+        elif e['e'] == 'rdma' and e.get('clone'):
+            c = e['clone']
+            if c['orig'] not in reqs or reqs[c['orig']][0] != c['kind'] or not c['dst_ok']:
+                return 'event %d: the DMA engine received a request that is no copy of a driver request (%s)' % (i, c)
+            if c['orig'] in seen_clone:
+                return 'event %d: copy request %d forwarded to the DMA engine twice' % (i, c['orig'])
+            seen_clone.add(c['orig'])
+            clone_of[c['id']] = c['orig']
+            # every flush ordered before this copy must be fully acknowledged before the copy can be forwarded
+            before = [r for r in order if r == c['orig'] or reqs[r][2] < reqs[c['orig']][2]]
+            nflush = sum(1 for r in before if reqs[r][0] == 'DFlush')
+            have = sum(1 for t in acks_at if t < i)
+            if have < nflush * nc:
+                return ('event %d: %s copy %d reached the DMA port while cache flushes ordered before it were '
+                        'unacknowledged (%d of %d acknowledgements delivered)' % (i, c['kind'], c['orig'], have, nflush * nc))
+        elif e['e'] == 'rdrv' and e.get('rsp'):
+            p = e['rsp']
+            if p['orig'] not in reqs or reqs[p['orig']][0] != p['kind']:
+                return 'event %d: response for a request the driver never sent (%s)' % (i, p)
+            if p['orig'] in seen_rsp:
+                return 'event %d: request %d answered twice' % (i, p['orig'])
+            seen_rsp.add(p['orig'])
+            kind, src, t0 = reqs[p['orig']]
+            if p['dst'] != (1 if (kind == 'DFlush' and nc == 0) else src):
+                return 'event %d: response to request %d routed to %d' % (i, p['orig'], p['dst'])
+            if kind == 'DFlush':
+                nflush = sum(1 for r in order if reqs[r][0] == 'DFlush' and reqs[r][2] <= t0)
+                if sum(1 for t in acks_at if t < i) < nflush * nc:
+                    return 'event %d: flush %d answered before all caches acknowledged' % (i, p['orig'])
+            else:
+                if not any(clone_of.get(cid) == p['orig'] and t < i for cid, t in dma_ans.items()):
+                    return 'event %d: copy %d answered before the DMA engine completed it' % (i, p['orig'])
+    if case.get('drained') and not case.get('cap'):
+        for rid in order:
+            if reqs[rid][0] != 'DOther' and rid not in seen_rsp:
+                return 'request %d (%s) never answered although caches and DMA engine answered everything' % (rid, reqs[rid][0])
+    return None
+
+
 def mon_hist(case):
     """Multi-queue history of one context.  A copy whose range shares a byte with a buffer that existed when a
     kernel was launched, that kernel having completed since the last flush was issued, must flush."""
@@ -257,7 +323,7 @@ def mon_drv(case):
 
 def strip(obj):
     """replay input: cases without observations"""
-    out = {'dma': [], 'drv': [], 'ovl': [], 'hist': []}
+    out = {'dma': [], 'drv': [], 'ovl': [], 'hist': [], 'cpr': []}
     for c in obj.get('dma', []):
         out['dma'].append({'lg': c['lg'], 'max': c.get('max', 4), 'hostile': c.get('hostile', False), 'drained': c.get('drained', False),
                            'events': [{k: e[k] for k in ('e', 'copy', 'rsp') if k in e} for e in c['events']]})
@@ -269,13 +335,17 @@ def strip(obj):
                                     'order': o.get('order') or []} for o in c['ops']]})
     for c in obj.get('ovl', []):
         out['ovl'].append({k: c[k] for k in ('s1', 'e1', 's2', 'e2')})
+    for c in obj.get('cpr', []):
+        out['cpr'].append({'ncache': c['ncache'], 'cap': c.get('cap', 0), 'hostile': c.get('hostile', False),
+                           'drained': c.get('drained', False),
+                           'events': [{k: e[k] for k in ('e', 'req', 'rspto', 'bad') if k in e} for e in c['events']]})
     for c in obj.get('hist', []):
         out['hist'].append({'ngpu': c['ngpu'], 'nq': c['nq'], 'init': c['init'],
                             'events': [{k: e[k] for k in ('e', 'q', 'size', 'd2h', 'addr', 'n') if k in e} for e in c['events']]})
     return out
 
 
-def run_impl(binary, cases=None, seed=1, n=(60, 40, 200, 60)):
+def run_impl(binary, cases=None, seed=1, n=(60, 40, 200, 60, 80)):
     tmp = os.path.join(vlib.BUILD, 'c11_%d.json' % os.getpid())
     scratch = os.path.join(vlib.BUILD, 'c11_scratch')
     os.makedirs(scratch, exist_ok=True)
@@ -285,7 +355,7 @@ def run_impl(binary, cases=None, seed=1, n=(60, 40, 200, 60)):
         rc, log = vlib.run([binary, '--replay', inp, '--out', tmp], cwd=scratch, timeout=600)
         os.remove(inp)
     else:
-        rc, log = vlib.run([binary, '--seed', str(seed), '--ndma', str(n[0]), '--ndrv', str(n[1]), '--novl', str(n[2]), '--nhist', str(n[3]),
+        rc, log = vlib.run([binary, '--seed', str(seed), '--ndma', str(n[0]), '--ndrv', str(n[1]), '--novl', str(n[2]), '--nhist', str(n[3]), '--ncpr', str(n[4]),
                             '--out', tmp], cwd=scratch, timeout=900)
     if rc != 0:
         return None, log
@@ -335,7 +405,7 @@ def platform_samples(only=None):
 
 
 def merge(a, b):
-    return {k: a.get(k, []) + b.get(k, []) for k in ('dma', 'drv', 'ovl', 'hist')}
+    return {k: a.get(k, []) + b.get(k, []) for k in ('dma', 'drv', 'ovl', 'hist', 'cpr')}
 
 
 def dma_nontrivial(c):
@@ -380,7 +450,7 @@ def main(argv):
                        'the memory answers each sub-request at most once with the matching response type (hostile answers: model and '
                        'implementation agree on the panic, no property is claimed)']
     thorough = vlib.tier() == 'thorough'
-    n = (600, 300, 2000, 1500) if thorough else (50, 40, 300, 150)
+    n = (600, 300, 2000, 1500, 1500) if thorough else (50, 40, 300, 150, 150)
 
     replay_file = None
     if '--replay' in argv:
@@ -410,7 +480,7 @@ def main(argv):
             rep.violation({'broken': 'harness replay failed', 'log': log[-4000:]}, nofail=True)
             return rep.finish()
     else:
-        cases = {'dma': [], 'drv': [], 'ovl': [], 'hist': []}
+        cases = {'dma': [], 'drv': [], 'ovl': [], 'hist': [], 'cpr': []}
         cdir = os.path.join(vlib.ROOT, 'corpus', PROP)
         for p in sorted(os.listdir(cdir)) if os.path.isdir(cdir) else []:
             got, log = run_impl(binary, cases=strip(json.load(open(os.path.join(cdir, p)))))
@@ -439,6 +509,10 @@ def main(argv):
         m = mon_hist(c)
         if m:
             bad.append(('hist', i, m))
+    for i, c in enumerate(cases['cpr']):
+        m = mon_cpr(c)
+        if m:
+            bad.append(('cpr', i, m))
     known_seen = set()
     for i, c in enumerate(cases['drv']):
         m, k = mon_drv(c)
@@ -451,10 +525,12 @@ def main(argv):
 
     # ---- correspondence with the models
     from concurrent.futures import ThreadPoolExecutor
-    with ThreadPoolExecutor(max_workers=4) as ex:
+    with ThreadPoolExecutor(max_workers=5) as ex:
         f1 = ex.submit(vlib.eval_cases, PROP + 'dma', HDR_DMA, [c['coq'] for c in cases['dma']], 6)
         f2 = ex.submit(vlib.eval_cases, PROP + 'drv', HDR_DRV, [c['coq'] for c in cases['drv']], 4, 'dmismatches')
         f3 = ex.submit(vlib.eval_cases, PROP + 'ovl', HDR_DRV, [c['coq'] for c in cases['ovl']], 400, 'omismatches')
+        f5 = ex.submit(vlib.eval_cases, PROP + 'cpr', HDR_CPR, [c['coq'] for c in cases['cpr']], 30, 'cmismatches')
+        ok5, mism5, log5 = f5.result()
         f4 = ex.submit(vlib.eval_cases, PROP + 'hist', HDR_HIST, [c['coq'] for c in cases['hist']], 40, 'hmismatches')
         ok4, mism4, log4 = f4.result()
         ok1, mism1, log1 = f1.result()
@@ -464,6 +540,7 @@ def main(argv):
     rep.obligation('correspondence: %d driver/accessor cases evaluated by the model' % len(cases['drv']), ok2 and not mism2)
     rep.obligation('correspondence: %d memRangeOverlap samples evaluated by the model' % len(cases['ovl']), ok3 and not mism3)
     rep.obligation('correspondence: %d multi-queue flush histories evaluated by the model' % len(cases['hist']), ok4 and not mism4)
+    rep.obligation('correspondence: %d command-processor relay histories evaluated by the model' % len(cases['cpr']), ok5 and not mism5)
 
     plat = []
     if not replay_file or 'platform' in json.load(open(replay_file)):
@@ -489,7 +566,7 @@ def main(argv):
          {vlib.case_hash(s) for s, c in zip(stripped['drv'], cases['drv']) if drv_nontrivial(c)} | \
          {vlib.case_hash(s) for s, c in zip(stripped['hist'], cases['hist']) if hist_nontrivial(c)}
     rep.coverage.update({
-        'evaluations': len(cases['dma']) + len(cases['drv']) + len(cases['ovl']) + len(cases['hist']),
+        'evaluations': len(cases['dma']) + len(cases['drv']) + len(cases['ovl']) + len(cases['hist']) + len(cases['cpr']),
         'distinct_nontrivial': len(nt),
         'rule': 'DMA: random port histories (60-300 events + drain; access unit 4..64 bytes; up to 14 commands, lengths around unit '
                 'boundaries; every 5th history hostile), non-trivial = at least two completions observed.  Driver: 1-4 GPUs, 1-4 buffers '
@@ -511,12 +588,17 @@ def main(argv):
         'driver_flushes': sum(1 for c in cases['drv'] for o in c['ops'] if o['flush']),
         'driver_panics': sum(1 for c in cases['drv'] for o in c['ops'] if o['crash']),
         'overlap_samples': len(cases['ovl']),
+        'cp_relay_histories': len(cases['cpr']),
+        'cp_relay_events': dict(collections.Counter(e['e'] for c in cases['cpr'] for e in c['events'])),
+        'cp_relay_clones_observed': sum(1 for c in cases['cpr'] for e in c['events'] if e.get('clone')),
+        'cp_relay_responses_observed': sum(1 for c in cases['cpr'] for e in c['events'] if e.get('rsp')),
+        'cp_relay_hostile': sum(1 for c in cases['cpr'] if c.get('hostile')),
         'flush_histories': len(cases['hist']),
         'flush_history_events': dict(collections.Counter(e['e'] for c in cases['hist'] for e in c['events'])),
         'flush_history_copies_while_kernel_in_flight': hist_inflight,
         'flush_history_flushes': sum(1 for c in cases['hist'] for e in c['events'] if e['flush']),
         'platform_samples': {n_: v for n_, v, _ in plat},
-        'model_mismatches': len(mism1) + len(mism2) + len(mism3) + len(mism4), 'monitor_failures': len(bad),
+        'model_mismatches': len(mism1) + len(mism2) + len(mism3) + len(mism4) + len(mism5), 'monitor_failures': len(bad),
     })
     rep.samples = [{'kind': 'dma', 'lg': c['lg'], 'events': [e['e'] for e in c['events'][:30]]} for c in cases['dma'][:1]] + \
                   [{'kind': 'drv', 'lg': c['lg'], 'magic': c['magic'], 'ngpu': c['ngpu'],
@@ -527,12 +609,12 @@ def main(argv):
         n_, v, l = platbad[0]
         args = [a for nm, pk, a in PLATFORM_SAMPLES if nm == n_][0]
         msg = 'platform sample %s %s: %s' % (n_, ' '.join(args), 'did not verify / did not finish' if v == 'fail' else 'does not build')
-        rep.violation({'property': PROP, 'what': msg, 'platform': n_, 'log': l, 'cases': {'dma': [], 'drv': [], 'ovl': [], 'hist': []},
+        rep.violation({'property': PROP, 'what': msg, 'platform': n_, 'log': l, 'cases': {'dma': [], 'drv': [], 'ovl': [], 'hist': [], 'cpr': []},
                        'replay_cmd': './check C11 --replay <this file>'}, text=msg, nofail=(v != 'fail'))
     if bad:
         kind, i, msg = bad[0]
         c = cases[kind][i]
-        one = {'dma': [], 'drv': [], 'ovl': [], 'hist': []}
+        one = {'dma': [], 'drv': [], 'ovl': [], 'hist': [], 'cpr': []}
         if kind == 'dma':
             def fails(evs):
                 cc = dict(c); cc['events'] = evs; cc['drained'] = False
@@ -553,6 +635,17 @@ def main(argv):
             out, _ = run_impl(binary, cases=strip({'drv': [cc]}))
             if out and mon_drv(out['drv'][0])[0]:
                 c, msg = out['drv'][0], mon_drv(out['drv'][0])[0]
+        elif kind == 'cpr':
+            def fails(evs):
+                cc = dict(c); cc['events'] = evs; cc['drained'] = False
+                out, _ = run_impl(binary, cases=strip({'cpr': [cc]}))
+                m2 = mon_cpr(out['cpr'][0]) if out else None
+                return bool(m2) and m2.split(':')[-1][:25] == msg.split(':')[-1][:25]
+            small = vlib.ddmin(c['events'], fails, budget=120)
+            cc = dict(c); cc['events'] = small; cc['drained'] = False
+            out, _ = run_impl(binary, cases=strip({'cpr': [cc]}))
+            if out and mon_cpr(out['cpr'][0]):
+                c, msg = out['cpr'][0], mon_cpr(out['cpr'][0])
         elif kind == 'hist':
             def fails(evs):
                 cc = dict(c); cc['events'] = evs
@@ -568,12 +661,15 @@ def main(argv):
         one[kind] = [c]
         rep.violation({'property': PROP, 'what': msg, 'kind': kind, 'cases': one,
                        'replay_cmd': './check C11 --replay <this file>'}, text=msg)
-    elif mism1 or mism2 or mism3 or mism4 or not (ok1 and ok2 and ok3 and ok4):
+    elif mism1 or mism2 or mism3 or mism4 or mism5 or not (ok1 and ok2 and ok3 and ok4 and ok5):
         if mism1 or not ok1:
             kind, (i, k), clog, what = 'dma', (mism1[0] if mism1 else (0, 0)), log1, 'coq/cp/Dma.v and amd/timing/cp/dma.go'
         elif mism2 or not ok2:
             kind, (i, k), clog, what = 'drv', (mism2[0] if mism2 else (0, 0)), log2, \
                 'coq/drv/MemCopy.v, coq/mem/StorageAccessor.v and amd/driver/memorycopy*.go, amd/emu/storageaccessor.go'
+        elif mism5 or not ok5:
+            kind, (i, k), clog, what = 'cpr', (mism5[0] if mism5 else (0, 0)), log5, \
+                'coq/cp/CpRelay.v and amd/timing/cp (cpMiddleware.go, ctrlMiddleware.go, commandprocessor.go)'
         elif mism4 or not ok4:
             kind, (i, k), clog, what = 'hist', (mism4[0] if mism4 else (0, 0)), log4, \
                 'coq/drv/FlushHist.v and the dirty marks / flush decisions of amd/driver (memorycopy.go, driver.go, api.go)'
@@ -582,13 +678,13 @@ def main(argv):
         c = cases[kind][i] if cases[kind] else None
         if c:
             c = {kk: v for kk, v in c.items() if kk not in ('coq', 'dump')}
-        one = {'dma': [], 'drv': [], 'ovl': [], 'hist': []}
+        one = {'dma': [], 'drv': [], 'ovl': [], 'hist': [], 'cpr': []}
         one[kind] = [c] if c else []
         rep.violation({'property': PROP, 'broken': 'correspondence between %s: observation %d of case %d differs; theorems of '
                        'props/C11.v no longer speak about this code' % (what, k, i),
                        'cases': one, 'first_diverging_observation': k, 'log': clog[-2000:]}, nofail=True,
                       text='model/implementation mismatch (%s) at case %d observation %d; no property violation found on %d cases'
-                      % (kind, i, k, len(cases['dma']) + len(cases['drv']) + len(cases['ovl']) + len(cases['hist'])))
+                      % (kind, i, k, len(cases['dma']) + len(cases['drv']) + len(cases['ovl']) + len(cases['hist']) + len(cases['cpr'])))
     return rep.finish()
 
 
